@@ -475,4 +475,508 @@ theorem fields_reconstruct (d line : Bytes) (hd : d ≠ []) :
     rw [List.extract_eq_take_drop, e] at h
     simpa using h.symm
 
+/-- between two neighbouring ranges there is exactly the delimiter -/
+theorem Tiling.sep_eq {d line : Bytes} :
+    ∀ {rs : List Range} {s : Nat}, Tiling d line s rs → ∀ (i : Nat) (hi : i + 1 < rs.length),
+      slice line rs[i].stop rs[i + 1].start = d
+  | [], _, h, _, _ => absurd h (by simp [Tiling])
+  | [_], _, _, _, hi => by simp at hi
+  | r :: r' :: t, _, h, i, hi => by
+    obtain ⟨_, _, h3, h4⟩ := h
+    cases i with
+    | zero =>
+      have := h4.consecutive.head_start
+      simp only [List.getElem_cons_zero, List.getElem_cons_succ] at this ⊢
+      rw [this]; exact slice_of_prefix_drop d line r.stop h3
+    | succ j =>
+      have := Tiling.sep_eq h4 j (by simpa using hi)
+      simpa using this
+
+theorem fields_separated (d line : Bytes) (hd : d ≠ []) (hline : line ≠ []) (i : Nat)
+    (hi : i + 1 < (fillWithFieldsLocations [] line d).length) :
+    slice line (fillWithFieldsLocations [] line d)[i].stop
+      (fillWithFieldsLocations [] line d)[i + 1].start = d :=
+  (fields_tiling d line hd hline).sep_eq i hi
+
+/-! ## 4. the greedy splitter (`-g`) -/
+
+theorem slice_length {α : Type} (l : List α) (s e : Nat) :
+    (slice l s e).length = min (e - s) (l.length - s) := by
+  simp [slice]
+
+theorem slice_isEmpty_iff {α : Type} (l : List α) {s e : Nat} (h1 : s ≤ e) (h2 : e ≤ l.length) :
+    (slice l s e).isEmpty = true ↔ e = s := by
+  rw [List.isEmpty_iff, ← List.length_eq_zero_iff, slice_length]
+  omega
+
+theorem repeatBytes_succ' (d : Bytes) (k : Nat) : repeatBytes d k ++ d = repeatBytes d (k + 1) := by
+  induction k with
+  | zero => simp [repeatBytes]
+  | succ k ih =>
+    show d ++ repeatBytes d k ++ d = d ++ repeatBytes d (k + 1)
+    rw [List.append_assoc, ih]
+
+theorem repeatBytes_one (d : Bytes) : repeatBytes d 1 = d := by simp [repeatBytes]
+
+/-- what the greedy loop does to the plain ranges: an empty range that is neither the first nor
+    the last is dropped -/
+def mergeRanges : Bool → List Range → List Range
+  | _, [] => []
+  | _, [r] => [r]
+  | am, r :: r' :: t =>
+    if am = true ∧ r.stop = r.start then mergeRanges true (r' :: t) else r :: mergeRanges true (r' :: t)
+
+theorem rangesBetweenGreedy_eq_merge (dlen lineLen : Nat) :
+    ∀ (ms : List Nat) (am : Bool) (prev : Nat),
+      rangesBetweenGreedy dlen lineLen am prev ms = mergeRanges am (rangesBetween dlen lineLen prev ms) := by
+  intro ms
+  induction ms with
+  | nil => intro am prev; simp [rangesBetweenGreedy, rangesBetween, mergeRanges]
+  | cons idx t ih =>
+    intro am prev
+    simp only [rangesBetweenGreedy, rangesBetween]
+    cases hr : rangesBetween dlen lineLen (idx + dlen) t with
+    | nil => exact absurd hr (rangesBetween_ne_nil _ _ _ _)
+    | cons r' t' =>
+      simp only [mergeRanges, ih, hr]
+
+/-- After a range that stopped at `e`, the line consists, for each `(k, f)` of `ms`, of `k`
+    copies of the delimiter followed by `f`, and `gs` are the positions of those `f`s.  The
+    last one stops at the end of the line. -/
+def GSep (d line : Bytes) : Nat → List Range → List (Nat × Bytes) → Prop
+  | e, [], [] => e = line.length
+  | e, r :: t, (k, f) :: ms =>
+    r.start = e + k * d.length ∧ slice line e r.start = repeatBytes d k ∧ r.start ≤ r.stop ∧
+      slice line r.start r.stop = f ∧ GSep d line r.stop t ms
+  | _, _ :: _, [] => False
+  | _, [], _ :: _ => False
+
+/-- the scanning-state lemma of the greedy loop against `greedyMerge`: `k` occurrences have been
+    seen since the last range stopped at `e` -/
+theorem merge_gsep {d line : Bytes} :
+    ∀ {ps : List Range} {s : Nat}, Tiling d line s ps → ∀ (k e : Nat), e + k * d.length = s →
+      slice line e s = repeatBytes d k →
+      GSep d line e (mergeRanges true ps) (greedyMerge k (contents line ps))
+  | [], _, h, _, _, _, _ => absurd h (by simp [Tiling])
+  | [r], _, h, k, e, hs, hrep => by
+    obtain ⟨h1, h2, h3⟩ := h
+    simp only [mergeRanges, contents, List.map_cons, List.map_nil, greedyMerge, GSep]
+    subst h1
+    exact ⟨hs.symm, hrep, h2, trivial, h3⟩
+  | r :: r' :: t, s, h, k, e, hs, hrep => by
+    have hb := h.consecutive.getElem_bounds 0 (by simp)
+    obtain ⟨h1, h2, h3, h4⟩ := h
+    simp only [List.getElem_cons_zero] at hb
+    have hsd := slice_of_prefix_drop d line r.stop h3
+    have hiff := slice_isEmpty_iff line hb.2.1 hb.2.2
+    simp only [mergeRanges, contents, List.map_cons, greedyMerge, true_and]
+    by_cases hemp : r.stop = r.start
+    · rw [if_pos hemp, if_pos (hiff.mpr hemp)]
+      have := merge_gsep h4 (k + 1) e (by rw [Nat.add_mul]; omega) (by
+        rw [← slice_append_slice line (show e ≤ s by omega) (show s ≤ r.stop + d.length by omega),
+          hrep, ← repeatBytes_succ']
+        congr 1
+        have : s = r.stop := by omega
+        rw [this]; exact hsd)
+      simpa [contents] using this
+    · rw [if_neg hemp, if_neg (by rw [hiff]; exact hemp)]
+      have := merge_gsep h4 1 r.stop (by omega) (by rw [hsd, repeatBytes_one])
+      subst h1
+      exact ⟨hs.symm, hrep, h2, rfl, by simpa [contents] using this⟩
+
+/-- the greedy ranges against the greedy tokenisation: the first field counts as preceded by no
+    occurrence -/
+def GreedyTiling (d line : Bytes) (gs : List Range) (tok : Tok) : Prop :=
+  GSep d line 0 gs ((0, tok.first) :: tok.rest)
+
+theorem fillGreedy_eq_merge (d line : Bytes) (hd : d ≠ []) :
+    fillWithFieldsLocationsGreedy [] line d = mergeRanges false (fillWithFieldsLocations [] line d) := by
+  unfold fillWithFieldsLocationsGreedy fillWithFieldsLocations
+  rw [isEmpty_eq_false_of_ne_nil hd]
+  simp only [Bool.false_eq_true, if_false]
+  cases line with
+  | nil => simp [mergeRanges]
+  | cons c t => simp [rangesBetweenGreedy_eq_merge]
+
+/-- **C01, greedy.**  For a non-empty line the ranges of `-g` are the fields of the greedy
+    tokenisation, and the text between two neighbours is the delimiter repeated as many times as
+    the tokenisation merged. -/
+theorem greedy_fields_tiling (d line : Bytes) (hd : d ≠ []) (hline : line ≠ []) :
+    GreedyTiling d line (fillWithFieldsLocationsGreedy [] line d) (tokenize d true false line) := by
+  have ht := fields_tiling d line hd hline
+  have hc := fields_are_contents d line hd hline
+  rw [fillGreedy_eq_merge d line hd]
+  unfold GreedyTiling tokenize
+  rw [← hc]
+  generalize fillWithFieldsLocations [] line d = ps at ht
+  match ps, ht with
+  | [r], h =>
+    obtain ⟨h1, h2, h3⟩ := h
+    simp [mergeRanges, greedyMerge, GSep, h1, h3, repeatBytes, slice_self]
+  | r :: r' :: t, h =>
+    obtain ⟨h1, h2, h3, h4⟩ := h
+    have hsd := slice_of_prefix_drop d line r.stop h3
+    have := merge_gsep h4 1 r.stop (by omega) (by rw [hsd, repeatBytes_one])
+    simp only [mergeRanges, Bool.false_eq_true, false_and, if_false, List.map_cons, GSep]
+    refine ⟨by simp [h1], by simp [h1, slice_self, repeatBytes], by omega, rfl, ?_⟩
+    simpa [contents] using this
+
+/-! ### what `GSep` gives -/
+
+theorem GSep.contents_eq {d line : Bytes} :
+    ∀ {gs : List Range} {ms : List (Nat × Bytes)} {e : Nat}, GSep d line e gs ms →
+      contents line gs = ms.map (·.2)
+  | [], [], _, _ => rfl
+  | r :: t, (k, f) :: ms, _, h => by
+    obtain ⟨_, _, _, h4, h5⟩ := h
+    have := GSep.contents_eq h5
+    simp only [contents, List.map_cons] at this ⊢
+    rw [h4, this]
+  | _ :: _, [], _, h => absurd h (by simp [GSep])
+  | [], _ :: _, _, h => absurd h (by simp [GSep])
+
+theorem GSep.length_eq {d line : Bytes} {gs : List Range} {ms : List (Nat × Bytes)} {e : Nat}
+    (h : GSep d line e gs ms) : gs.length = ms.length := by
+  have := congrArg List.length h.contents_eq
+  simpa using this
+
+theorem GSep.le_stop {d line : Bytes} :
+    ∀ {gs : List Range} {ms : List (Nat × Bytes)} {e : Nat}, GSep d line e gs ms →
+      ∀ (j : Nat) (hj : j < gs.length), e ≤ gs[j].stop
+  | [], _, _, _, _, hj => by simp at hj
+  | _ :: _, [], _, h, _, _ => absurd h (by simp [GSep])
+  | r :: t, (k, f) :: ms, e, h, j, hj => by
+    obtain ⟨h1, _, h3, _, h5⟩ := h
+    cases j with
+    | zero => simp only [List.getElem_cons_zero]; omega
+    | succ j' =>
+      have := GSep.le_stop h5 j' (by simpa using hj)
+      simp only [List.getElem_cons_succ]; omega
+
+/-- the separator-and-field text of `pieceText` -/
+abbrev sepField (d : Bytes) : Nat × Bytes → Bytes := fun (k, g) => repeatBytes d k ++ g
+
+theorem GSep.slice_eq {d line : Bytes} :
+    ∀ {gs : List Range} {ms : List (Nat × Bytes)} {e : Nat}, GSep d line e gs ms →
+      ∀ (j : Nat) (hj : j < gs.length),
+        slice line e gs[j].stop = (ms.take (j + 1)).flatMap (sepField d)
+  | [], _, _, _, _, hj => by simp at hj
+  | _ :: _, [], _, h, _, _ => absurd h (by simp [GSep])
+  | r :: t, (k, f) :: ms, e, h, j, hj => by
+    obtain ⟨h1, h2, h3, h4, h5⟩ := h
+    have hfirst : slice line e r.stop = repeatBytes d k ++ f := by
+      rw [← slice_append_slice line (show e ≤ r.start by omega) h3, h2, h4]
+    cases j with
+    | zero => simpa [sepField] using hfirst
+    | succ j' =>
+      have hj' : j' < t.length := by simpa using hj
+      have ih := GSep.slice_eq h5 j' hj'
+      have hle := h5.le_stop j' hj'
+      simp only [List.getElem_cons_succ, List.take_succ_cons, List.flatMap_cons]
+      rw [← ih, ← slice_append_slice line (show e ≤ r.stop by omega) hle, hfirst]
+
+theorem GSep.drop {d line : Bytes} :
+    ∀ {gs : List Range} {ms : List (Nat × Bytes)} {e : Nat}, GSep d line e gs ms →
+      ∀ (a : Nat) (ha : a < gs.length),
+        GSep d line gs[a].stop (gs.drop (a + 1)) (ms.drop (a + 1)) ∧ gs[a].start ≤ gs[a].stop ∧
+          ∃ k, ms[a]? = some (k, slice line gs[a].start gs[a].stop)
+  | [], _, _, _, _, ha => by simp at ha
+  | _ :: _, [], _, h, _, _ => absurd h (by simp [GSep])
+  | r :: t, (k, f) :: ms, e, h, a, ha => by
+    obtain ⟨h1, h2, h3, h4, h5⟩ := h
+    cases a with
+    | zero => exact ⟨by simpa using h5, by simpa using h3, k, by simp [h4]⟩
+    | succ a' =>
+      have := GSep.drop h5 a' (by simpa using ha)
+      simpa using this
+
+theorem GSep.sep_eq {d line : Bytes} :
+    ∀ {gs : List Range} {ms : List (Nat × Bytes)} {e : Nat}, GSep d line e gs ms →
+      ∀ (i : Nat) (hi : i + 1 < gs.length) (hi' : i + 1 < ms.length),
+        slice line gs[i].stop gs[i + 1].start = repeatBytes d ms[i + 1].1
+  | [], _, _, _, _, hi, _ => by simp at hi
+  | _ :: _, [], _, h, _, _, _ => absurd h (by simp [GSep])
+  | [_], _ :: _, _, _, _, hi, _ => by simp at hi
+  | r :: r' :: t, (k, f) :: ms, e, h, i, hi, hi' => by
+    obtain ⟨_, _, _, _, h5⟩ := h
+    cases i with
+    | zero =>
+      match ms, h5 with
+      | (k', f') :: ms', h5 => simpa using h5.2.1
+    | succ i' =>
+      have := GSep.sep_eq h5 i' (by simpa using hi) (by simpa using hi')
+      simpa using this
+
+theorem GSep.stop_le {d line : Bytes} :
+    ∀ {gs : List Range} {ms : List (Nat × Bytes)} {e : Nat}, GSep d line e gs ms →
+      e ≤ line.length ∧ ∀ (j : Nat) (hj : j < gs.length), gs[j].stop ≤ line.length
+  | [], [], _, h => ⟨Nat.le_of_eq h, fun _ hj => by simp at hj⟩
+  | _ :: _, [], _, h => absurd h (by simp [GSep])
+  | [], _ :: _, _, h => absurd h (by simp [GSep])
+  | r :: t, (k, f) :: ms, e, h => by
+    obtain ⟨h1, _, h3, _, h5⟩ := h
+    obtain ⟨ih1, ih2⟩ := GSep.stop_le h5
+    refine ⟨by omega, fun j hj => ?_⟩
+    cases j with
+    | zero => simpa using ih1
+    | succ j' => simpa using ih2 j' (by simpa using hj)
+
+/-- greedy ranges are ordered and inside the line: the Rust slicing cannot panic -/
+theorem GSep.start_le_stop {d line : Bytes} {gs : List Range} {ms : List (Nat × Bytes)} {e : Nat}
+    (h : GSep d line e gs ms) (a b : Nat) (hab : a ≤ b) (hb : b < gs.length) :
+    (gs[a]'(by omega)).start ≤ gs[b].stop ∧ gs[b].stop ≤ line.length := by
+  refine ⟨?_, h.stop_le.2 b hb⟩
+  obtain ⟨hdrop, hle, _⟩ := h.drop a (by omega)
+  by_cases hba : b = a
+  · subst hba; exact hle
+  · have hj : b - a - 1 < (gs.drop (a + 1)).length := by simp; omega
+    have := hdrop.le_stop (b - a - 1) hj
+    have hget : (gs.drop (a + 1))[b - a - 1] = gs[b] := by
+      rw [List.getElem_drop]; congr 1; omega
+    rw [hget] at this
+    omega
+
+/-- **C01, greedy contents.** -/
+theorem greedy_fields_are_contents (d line : Bytes) (hd : d ≠ []) (hline : line ≠ []) :
+    (fillWithFieldsLocationsGreedy [] line d).map (fun r => slice line r.start r.stop) =
+      (tokenize d true false line).first :: (tokenize d true false line).rest.map (·.2) := by
+  have := (greedy_fields_tiling d line hd hline).contents_eq
+  simpa [contents] using this
+
+theorem greedy_fields_length (d line : Bytes) (hd : d ≠ []) (hline : line ≠ []) :
+    (fillWithFieldsLocationsGreedy [] line d).length = (tokenize d true false line).numFields := by
+  have := (greedy_fields_tiling d line hd hline).length_eq
+  simpa [Tok.numFields] using this
+
+/-- **C01, greedy separators.**  Between the greedy fields `i` and `i+1` the line holds the
+    delimiter repeated as many times as the tokenisation counted. -/
+theorem greedy_separated (d line : Bytes) (hd : d ≠ []) (hline : line ≠ []) (i : Nat)
+    (hi : i + 1 < (fillWithFieldsLocationsGreedy [] line d).length) :
+    ∃ h : i < (tokenize d true false line).rest.length,
+      slice line (fillWithFieldsLocationsGreedy [] line d)[i].stop
+        (fillWithFieldsLocationsGreedy [] line d)[i + 1].start =
+          repeatBytes d ((tokenize d true false line).rest[i]).1 := by
+  have ht := greedy_fields_tiling d line hd hline
+  have hl := ht.length_eq
+  have h' : i < (tokenize d true false line).rest.length := by simp at hl; omega
+  refine ⟨h', ?_⟩
+  have := ht.sep_eq i hi (by simpa using h')
+  simpa using this
+
+theorem GSep.slice_pieceText {d line : Bytes} {gs : List Range} {tok : Tok}
+    (ht : GSep d line 0 gs ((0, tok.first) :: tok.rest)) (a b : Nat)
+    (hab : a ≤ b) (hb : b < gs.length) :
+    slice line (gs[a]'(by omega)).start gs[b].stop =
+      pieceText (repeatBytes d) tok (a + 1) (b + 1) := by
+  have ha : a < gs.length := by omega
+  have hl := ht.length_eq
+  obtain ⟨hdrop, hle, k, hk⟩ := ht.drop a ha
+  have ha' : a < ((0, tok.first) :: tok.rest).length := by omega
+  have hall : ((0, tok.first) :: tok.rest).drop a =
+      (k, slice line gs[a].start gs[a].stop) :: ((0, tok.first) :: tok.rest).drop (a + 1) := by
+    rw [List.drop_eq_getElem_cons ha']
+    congr 1
+    have := List.getElem?_eq_getElem ha'
+    rw [hk] at this
+    exact (Option.some.inj this).symm
+  have e1 : a + 1 - 1 = a := by omega
+  have e2 : b + 1 - (a + 1) + 1 = (b - a) + 1 := by omega
+  unfold pieceText
+  simp only [e1, e2, hall, List.take_succ_cons]
+  by_cases hba : b = a
+  · subst hba
+    simp
+  · have hj : b - a - 1 < (gs.drop (a + 1)).length := by simp; omega
+    have hs := hdrop.slice_eq (b - a - 1) hj
+    have hst := hdrop.le_stop (b - a - 1) hj
+    have hget : (gs.drop (a + 1))[b - a - 1] = gs[b] := by
+      rw [List.getElem_drop]; congr 1; omega
+    rw [hget] at hs hst
+    have e3 : b - a - 1 + 1 = b - a := by omega
+    rw [e3] at hs
+    rw [← slice_append_slice line hle hst, hs]
+
+/-- **C01, greedy interleaving.**  The bytes from the start of greedy field `a` to the end of
+    greedy field `b` are the specification's `pieceText` of the parts `a+1 … b+1` (1-based), the
+    separators being the delimiter runs actually found. -/
+theorem greedy_slice_eq_pieceText (d line : Bytes) (hd : d ≠ []) (hline : line ≠ []) (a b : Nat)
+    (hab : a ≤ b) (hb : b < (fillWithFieldsLocationsGreedy [] line d).length) :
+    slice line ((fillWithFieldsLocationsGreedy [] line d)[a]'(by omega)).start
+        ((fillWithFieldsLocationsGreedy [] line d)[b]).stop =
+      pieceText (repeatBytes d) (tokenize d true false line) (a + 1) (b + 1) :=
+  (greedy_fields_tiling d line hd hline).slice_pieceText a b hab hb
+
+/-! ### the plain splitter in the vocabulary of the specification (`tokenize`, `pieceText`) -/
+
+theorem joinWith_cons_flatMap (d f : Bytes) (t : List Bytes) :
+    joinWith d (f :: t) = f ++ t.flatMap (fun g => d ++ g) := by
+  induction t generalizing f with
+  | nil => simp [joinWith]
+  | cons g t ih => rw [joinWith_cons_cons, ih g]; simp [List.append_assoc]
+
+theorem pieceText_sel_plain (d : Bytes) (k0 : Nat) (x : Bytes) (xs : List Bytes) (n : Nat) :
+    (match ((k0, x) :: xs.map (fun f => (1, f))).take (n + 1) with
+      | [] => []
+      | (_, f) :: more => f ++ more.flatMap fun (k, g) => repeatBytes d k ++ g) =
+      joinWith d ((x :: xs).take (n + 1)) := by
+  simp only [List.take_succ_cons, joinWith_cons_flatMap, ← List.map_take, List.flatMap_map,
+    repeatBytes_one]
+
+/-- the specification's piece of a plain tokenisation is the fields joined by the delimiter -/
+theorem pieceText_plain (d f0 : Bytes) (rest : List Bytes) (lo hi : Nat) (h1 : 1 ≤ lo)
+    (h2 : lo ≤ hi) :
+    pieceText (repeatBytes d) ⟨f0, rest.map fun f => (1, f)⟩ lo hi =
+      joinWith d ((f0 :: rest).extract (lo - 1) hi) := by
+  obtain ⟨a, rfl⟩ : ∃ a, lo = a + 1 := ⟨lo - 1, by omega⟩
+  obtain ⟨n, rfl⟩ : ∃ n, hi = a + 1 + n := ⟨hi - (a + 1), by omega⟩
+  have e1 : a + 1 - 1 = a := by omega
+  have e2 : a + 1 + n - (a + 1) + 1 = n + 1 := by omega
+  have e3 : a + 1 + n - a = n + 1 := by omega
+  unfold pieceText
+  simp only [e1, e2, List.extract_eq_take_drop, e3]
+  cases a with
+  | zero => exact pieceText_sel_plain d 0 f0 rest n
+  | succ a' =>
+    simp only [List.drop_succ_cons, ← List.map_drop]
+    cases hdr : rest.drop a' with
+    | nil => simp [joinWith]
+    | cons x xs => exact pieceText_sel_plain d 1 x xs n
+
+theorem tokenize_plain (d line : Bytes) :
+    tokenize d false false line =
+      ⟨(splitFields d line).headD [], (splitFields d line).tail.map fun f => (1, f)⟩ := by
+  unfold tokenize
+  cases splitFields d line <;> simp
+
+theorem splitAux_ne_nil (d : Bytes) : ∀ (l : Bytes) (skip : Nat) (cur : Bytes), splitAux d skip cur l ≠ []
+  | [], _, _ => by simp [splitAux]
+  | _ :: t, skip + 1, cur => by simp only [splitAux]; exact splitAux_ne_nil d t skip cur
+  | c :: t, 0, cur => by
+    simp only [splitAux]
+    split
+    · simp
+    · exact splitAux_ne_nil d t 0 _
+
+theorem splitFields_ne_nil (d line : Bytes) : splitFields d line ≠ [] := splitAux_ne_nil d line 0 []
+
+/-- **C01, interleaving, in the specification's words.** -/
+theorem slice_eq_pieceText (d line : Bytes) (hd : d ≠ []) (hline : line ≠ []) (a b : Nat)
+    (hab : a ≤ b) (hb : b < (fillWithFieldsLocations [] line d).length) :
+    slice line ((fillWithFieldsLocations [] line d)[a]'(by omega)).start
+        ((fillWithFieldsLocations [] line d)[b]).stop =
+      pieceText (repeatBytes d) (tokenize d false false line) (a + 1) (b + 1) := by
+  rw [slice_eq_interleave d line hd hline a b hab hb, tokenize_plain,
+    pieceText_plain d _ _ (a + 1) (b + 1) (by omega) (by omega)]
+  have hne := splitFields_ne_nil d line
+  cases h : splitFields d line with
+  | nil => exact absurd h hne
+  | cons f0 rest => simp
+
+/-! ## 5. `-p`: compressing runs of delimiters -/
+
+theorem compressFields_ne_nil : ∀ (fs : List Bytes), fs ≠ [] → compressFields fs ≠ []
+  | [], h => absurd rfl h
+  | [f], _ => by simp [compressFields]
+  | f :: g :: t, _ => by
+    simp only [compressFields]
+    split
+    · exact compressFields_ne_nil (g :: t) (by simp)
+    · simp
+
+theorem slice_to_end {α : Type} (l : List α) (s : Nat) : slice l s l.length = l.drop s := by
+  unfold slice
+  exact List.take_of_length_le (by simp)
+
+/-- the loop of `compress_delimiter` after the first match (`0 < prev`) -/
+theorem compressAux_eq (d line : Bytes) (hd : d ≠ []) :
+    ∀ (ms : List Nat) (prev : Nat), MatchesOK d line prev ms → prev ≤ line.length → 0 < prev →
+      compressAux line d prev ms =
+        joinWith d (compressFields (contents line (rangesBetween d.length line.length prev ms))) := by
+  intro ms
+  induction ms with
+  | nil =>
+    intro prev _ hp _
+    simp only [compressAux, rangesBetween, contents, List.map_cons, List.map_nil, compressFields,
+      joinWith, slice_to_end]
+    by_cases h : prev < line.length
+    · rw [if_pos h]
+    · rw [if_neg h, List.drop_of_length_le (by omega)]
+  | cons idx t ih =>
+    intro prev hm hp hpos
+    obtain ⟨h1, h2, h3⟩ := hm
+    have hdpos := length_pos_of_ne_nil hd
+    have hle : idx + d.length ≤ line.length := by
+      have := h2.length_le
+      simp at this; omega
+    have hidx : idx ≠ 0 := by omega
+    have ih' := ih (idx + d.length) h3 hle (by omega)
+    simp only [compressAux, rangesBetween, contents, List.map_cons]
+    rw [if_neg hidx, ih']
+    cases hr : rangesBetween d.length line.length (idx + d.length) t with
+    | nil => exact absurd hr (rangesBetween_ne_nil _ _ _ _)
+    | cons r' t' =>
+      simp only [contents, List.map_cons, compressFields]
+      cases hemp : (slice line prev idx).isEmpty with
+      | true => simp
+      | false =>
+        simp only [Bool.not_false, if_true, Bool.false_eq_true, if_false]
+        rw [joinWith_cons_of_ne_nil]
+        · have := compressFields_ne_nil
+            (slice line r'.start r'.stop :: t'.map fun r => slice line r.start r.stop) (by simp)
+          exact this
+
+/-- **C01, `-p`.**  `compress_delimiter` rewrites the line to: the first field, then the
+    non-empty inner fields and the last field, one delimiter between neighbours. -/
+theorem compress_is_spec (d line : Bytes) (hd : d ≠ []) (f0 : Bytes) (rest : List Bytes)
+    (hs : splitFields d line = f0 :: rest) :
+    compressDelimiter line d [] = joinWith d (f0 :: compressFields rest) := by
+  by_cases hline : line = []
+  · subst hline
+    simp only [splitFields, splitAux, List.cons.injEq] at hs
+    obtain ⟨rfl, rfl⟩ := hs
+    simp [compressDelimiter, findIter, findIterAux, isEmpty_eq_false_of_ne_nil hd, compressAux,
+      compressFields, joinWith]
+  · have hc := fields_are_contents d line hd hline
+    have hm := findIter_ok d line hd
+    have hdpos := length_pos_of_ne_nil hd
+    have hlpos := length_pos_of_ne_nil hline
+    unfold fillWithFieldsLocations at hc
+    rw [isEmpty_eq_false_of_ne_nil hline] at hc
+    simp only [Bool.false_eq_true, if_false] at hc
+    unfold compressDelimiter
+    cases hf : findIter d line with
+    | nil =>
+      rw [hf] at hc
+      simp only [rangesBetween, List.map_cons, List.map_nil, slice_zero_length] at hc
+      rw [hs] at hc
+      simp only [List.cons.injEq] at hc
+      obtain ⟨rfl, rfl⟩ := hc
+      simp [compressAux, compressFields, joinWith, hlpos]
+    | cons idx t =>
+      rw [hf] at hc hm
+      obtain ⟨_, h2, h3⟩ := hm
+      have hle : idx + d.length ≤ line.length := by
+        have := h2.length_le
+        simp at this; omega
+      simp only [rangesBetween, List.map_cons] at hc
+      rw [hs] at hc
+      simp only [List.cons.injEq] at hc
+      obtain ⟨hf0, hrest⟩ := hc
+      have hrest' : rest = contents line (rangesBetween d.length line.length (idx + d.length) t) :=
+        hrest.symm
+      have hne : compressFields rest ≠ [] := by
+        apply compressFields_ne_nil
+        rw [hrest']
+        simpa [contents] using rangesBetween_ne_nil _ _ _ t
+      simp only [compressAux]
+      rw [compressAux_eq d line hd t (idx + d.length) h3 hle (by omega), ← hrest',
+        joinWith_cons_of_ne_nil _ _ _ hne, ← hf0]
+      by_cases hidx : idx = 0
+      · subst hidx; simp [slice_self]
+      · rw [if_neg hidx]
+        have : (slice line 0 idx).isEmpty = false := by
+          rw [← Bool.not_eq_true, slice_isEmpty_iff line (by omega) (by omega)]
+          exact hidx
+        simp [this]
+
 end Tuc
